@@ -84,6 +84,8 @@ pub struct Knobs {
     pub extreme_rewards: bool,
     /// only the v2 instructions (needed for Token-2022 mints)
     pub v2_only: bool,
+    /// percentage of Token-2022 mints that carry a transfer hook
+    pub hook_pct: u64,
     pub has_rewards: bool,
     pub has_admin: bool,
     /// share of LP wake-ups that follow the life-cycle plan (legal and illegal transitions)
@@ -274,6 +276,7 @@ pub fn make_knobs(profile: Profile, rng: &mut Rng, thorough: bool) -> Knobs {
         adaptive_pct: 0,
         extreme_rewards: false,
         v2_only: false,
+        hook_pct: 0,
         has_rewards: profile == Profile::Rewards || profile == Profile::Byz || profile == Profile::Lifecycle,
         has_admin: profile == Profile::Admin || profile == Profile::Byz,
         lifecycle_pct: match profile {
@@ -298,6 +301,7 @@ pub fn make_knobs(profile: Profile, rng: &mut Rng, thorough: bool) -> Knobs {
         }
         Profile::T22 => {
             k.v2_only = true;
+            k.hook_pct = *rng.pick(&[0u64, 0, 30, 60]);
             k.spacing_choices = vec![1, 8, 64, 128];
             k.slots_per_epoch = *rng.pick(&[8u64, 20, 50, 432_000]);
             k.clock_jump_pct = pct(rng, 4, 2, 8);
@@ -370,6 +374,7 @@ impl Gen {
         let mut rng = Rng::new(seed ^ 0x5157_5053_494d_0001);
         let knobs = make_knobs(profile, &mut rng, thorough);
         V2_ONLY.with(|c| c.set(knobs.v2_only));
+        ix::HOOK_MINTS.with(|h| h.borrow_mut().clear());
         let rent = if knobs.non_default_rent {
             RentParams {
                 lamports_per_byte_year: *rng.pick(&[1000u64, 3480, 5000]),
@@ -430,7 +435,47 @@ impl Gen {
                 } else {
                     None
                 };
-                world::create_mint_2022(&mut l, &payer, mk, &mint_authority, 6, fee, None);
+                // transfer hook (simulator's hook program, needs a token badge) on some mints
+                let hook = rng.chance(knobs.hook_pct, 100);
+                world::create_mint_2022_ext(&mut l, &payer, mk, &mint_authority, 6, fee, None, hook);
+                if hook {
+                    let ce = ix::pda_config_extension(&config);
+                    if !l.exists(&ce) {
+                        world::must(
+                            &mut l,
+                            vec![
+                                ix::mk(
+                                    whirlpool::accounts::InitializeConfigExtension { config, config_extension: ce, funder: payer, fee_authority, system_program: ix::sys() },
+                                    whirlpool::instruction::InitializeConfigExtension {},
+                                ),
+                                ix::mk(
+                                    whirlpool::accounts::SetConfigFeatureFlag { whirlpools_config: config, authority: payer },
+                                    whirlpool::instruction::SetConfigFeatureFlag { feature_flag: whirlpool::state::ConfigFeatureFlag::TokenBadge(true) },
+                                ),
+                            ],
+                            "config extension",
+                        );
+                    }
+                    world::must(
+                        &mut l,
+                        vec![ix::mk(
+                            whirlpool::accounts::InitializeTokenBadge {
+                                whirlpools_config: config,
+                                whirlpools_config_extension: ce,
+                                token_badge_authority: fee_authority,
+                                token_mint: *mk,
+                                token_badge: ix::pda_token_badge(&config, mk),
+                                funder: payer,
+                                system_program: ix::sys(),
+                            },
+                            whirlpool::instruction::InitializeTokenBadge {},
+                        )],
+                        "initialize_token_badge",
+                    );
+                    ix::HOOK_MINTS.with(|h| {
+                        h.borrow_mut().insert(*mk, vec![world::hook_validation_address(mk), rt::hook_program_id()]);
+                    });
+                }
                 mints.push(MintInfo { key: *mk, program: ix::tok22(), authority: mint_authority });
             } else {
                 world::create_mint(&mut l, &payer, mk, &mint_authority, 6, None);
